@@ -239,7 +239,11 @@ def part_c(say, n):
             for t in good:
                 tk = copy.deepcopy(t["ticks"])
                 # (not the last instant: a trace cut short is a prefix of a behaviour and rightly accepted)
-                cand = [i for i, x in enumerate(tk[:-1]) if x["outs"] and i > 0]      # (instant 0: the find of the watcher races the first offer)
+                # (the start-up phase, up to the instant of the first `subscribed`: the find of the watcher races the first offer --
+                #  whether the offerer answers it by unicast depends on the interleaving of the two loops, so the specification
+                #  explains a run with that answer missing: seen at t = 1 of a fin1 run with SELFTEST_N = 40)
+                first = min([i for i, x in enumerate(tk) if ["subscribed", "srv"] in x["outs"]] or [0])
+                cand = [i for i, x in enumerate(tk[:-1]) if x["outs"] and i > first]
                 if not cand:
                     continue
                 i = rng.choice(cand)
